@@ -70,6 +70,19 @@ func Eval(want Schema) (*schema.Schema, error) {
 // cmdapi.applyChanges does: InspectSchema → SchemaDiff(DiffNormalized) → PlanChanges (recorded) →
 // sqlite.OpenTx → ApplyChanges → Commit (Rollback on error).
 func Apply(ctx context.Context, db *sql.DB, want Schema) (res Applied) {
+	return apply(ctx, db, want, true)
+}
+
+// ApplyNoTx is Apply without the wrapping transaction: the changes are executed by
+// Driver.ApplyChanges on the plain connection, the way `atlas schema apply --tx-mode none` does. Here
+// nothing but the plan's own `PRAGMA foreign_keys = off/on` wrapper keeps an enforcing connection
+// (`_fk=1`) from firing referential actions while a parent table is rebuilt. A failing plan is NOT
+// rolled back in this mode.
+func ApplyNoTx(ctx context.Context, db *sql.DB, want Schema) (res Applied) {
+	return apply(ctx, db, want, false)
+}
+
+func apply(ctx context.Context, db *sql.DB, want Schema, inTx bool) (res Applied) {
 	desired, err := Eval(want)
 	if err != nil {
 		return Applied{Stage: "eval", Err: err.Error()}
@@ -100,6 +113,19 @@ func Apply(ctx context.Context, db *sql.DB, want Schema) (res Applied) {
 		res.Plan = append(res.Plan, c.Cmd)
 	}
 	res.Class = Classify(res.Plan)
+	if !inTx {
+		if err := drv.ApplyChanges(ctx, changes); err != nil {
+			res.Stage, res.Err = "apply", err.Error()
+			var ap interface{ Applied() int }
+			if errors.As(err, &ap) {
+				res.Failed = ap.Applied()
+				if res.Failed < len(res.Plan) {
+					res.Err = fmt.Sprintf("statement %d %q: %s", res.Failed, res.Plan[res.Failed], err.Error())
+				}
+			}
+		}
+		return res
+	}
 	tx, err := sqlite.OpenTx(ctx, db, nil)
 	if err != nil {
 		res.Stage, res.Err = "apply", "open tx: "+err.Error()
